@@ -217,6 +217,20 @@ class C06(HistoryProperty):
         cfg = gen.swarm_cfg(rng, off=("shape_change", "alloptions", "dangling", "withopts", "derive", "map", "presets", "default_presets", "tmpl_preset"),
                             on=("dispatch", "overloads", "opt_default_expr"))
         spec = gen.gen_spec(rng, cfg)
+        if rng.random() < 0.4:
+            # chained >> : x >> step1(p=dataset) >> step2(p=dataset): each input must exist before the step applied to it
+            k = len(spec["nodes"])
+            nodes = [
+                {"k": "dataset", "name": "CHX", "args": {}, "cache": "nocache", "id": f"g{k}"},
+                {"k": "dataset", "name": "CHP1", "args": {}, "cache": "nocache", "id": f"g{k + 1}"},
+                {"k": "dataset", "name": "CHP2", "args": {}, "cache": "nocache", "id": f"g{k + 2}"},
+                {"k": "apply", "src": f"g{k}", "fn": {"t": "step", "name": "chs1", "params": {"p": f"g{k + 1}"}}, "via": "rshift", "id": f"g{k + 3}"},
+                {"k": "apply", "src": f"g{k + 3}", "fn": {"t": "step", "name": "chs2", "params": {"p": f"g{k + 2}"}}, "via": "rshift", "id": f"g{k + 4}"},
+            ]
+            if rng.random() < 0.5:
+                nodes.append({"k": "apply", "src": f"g{k + 4}", "fn": {"t": "fn", "name": "chf3"}, "via": "rshift", "id": f"g{k + 5}"})
+            spec["nodes"] += nodes
+            spec["roots"] = spec["roots"] + [nodes[-1]["id"], f"g{k + 4}"]
         inner = [n["id"] for n in spec["nodes"] if n["k"] in ("coalesce", "switch", "case", "bind")]
         applies = [n["id"] for n in spec["nodes"] if n["k"] == "apply" and gen._fn_children(n["fn"])]
         spec["roots"] = list(dict.fromkeys(spec["roots"] + rng.sample(inner, min(len(inner), rng.randint(0, 2))) + rng.sample(applies, min(len(applies), 2))))
@@ -285,18 +299,27 @@ class C06(HistoryProperty):
                     break
                 # >> : the input is produced before the step applied to it
                 n = gen.node_by_id(spec, op["node"])
-                if n["k"] == "apply" and gen._fn_children(n["fn"]):
+                if n["k"] == "apply":
+                    # every apply along the chain of sources: the bodies beneath its source run before the bodies beneath
+                    # the parameters of the step applied to it
                     cold = World(spec)
                     cold.do(op)
-                    src_names = self._dataset_names(spec, [n["src"]])
-                    par_names = self._dataset_names(spec, gen._fn_children(n["fn"]))
-                    a = [j for j, ev in enumerate(cold.log.events) if ev[0] == "call" and ev[2] == "body" and ev[3] in src_names - par_names]
-                    b = [j for j, ev in enumerate(cold.log.events) if ev[0] == "call" and ev[2] == "body" and ev[3] in par_names - src_names]
-                    if a and b:
-                        res.bump("apply_order_checked")
-                        if max(a) > min(b):
-                            res.violate("step-parameter-evaluated-before-source", op_index=i, node=op["node"], o=op["o"])
-                            break
+                    m = n
+                    while m["k"] == "apply" and not res.violations:
+                        if gen._fn_children(m["fn"]):
+                            src_names = self._dataset_names(spec, [m["src"]])
+                            par_names = self._dataset_names(spec, gen._fn_children(m["fn"]))
+                            # producing the input includes running the steps of the applies beneath the source
+                            src_steps = self._step_names(spec, m["src"])
+                            a = [j for j, ev in enumerate(cold.log.events) if ev[0] == "call" and ((ev[2] == "body" and ev[3] in src_names - par_names) or (ev[2] == "step" and ev[3] in src_steps))]
+                            b = [j for j, ev in enumerate(cold.log.events) if ev[0] == "call" and ev[2] == "body" and ev[3] in par_names - src_names]
+                            if a and b:
+                                res.bump("apply_order_checked")
+                                if max(a) > min(b):
+                                    res.violate("step-parameter-evaluated-before-source", op_index=i, node=m["id"], root=op["node"], o=op["o"])
+                        m = gen.node_by_id(spec, m["src"])
+                    if res.violations:
+                        break
             res.stats["events"] = w.log.seq
             res.digest = w.log.digest()
             res.seen("history", (spec, [op["o"] for op in case["ops"]]))
@@ -304,6 +327,20 @@ class C06(HistoryProperty):
                 res.seen("history_with_armed_faults", (spec, [op["o"] for op in case["ops"]]))
             res.sample = self.sample_of(case)
         return res
+
+    @staticmethod
+    def _step_names(spec, nid):
+        """Names of the step stubs of the applies along the source chain beneath a node (not through datasets)."""
+        by = {n["id"]: n for n in spec["nodes"]}
+        names = set()
+        n = by[nid]
+        while n["k"] == "apply":
+            f = n["fn"]
+            for g in ([f] if f["t"] != "pipeline" else f["steps"]):
+                if g["t"] in ("fn", "step"):
+                    names.add(g["name"])
+            n = by[n["src"]]
+        return names
 
     @staticmethod
     def _dataset_names(spec, starts):
